@@ -49,6 +49,36 @@ Theorem C02_client_request_parses_back :
 Proof. exact client_request_roundtrip. Qed.
 Print Assumptions C02_client_request_parses_back.
 
+(* ... the same, field by field.  The collections are first-occurrence-wins; C02_distinct_keys_keep_all:
+   with pairwise different keys they are exactly the lists the request was built from. *)
+Theorem C02_client_request_fields :
+  forall typed_other set_cookie mt mi host path qs cs hs body,
+    wf_method mt mi -> wf_resource (slash path ++ path) -> Forall wf_pair qs ->
+    Forall wf_cookie cs -> Forall plain_header hs -> wf_value host ->
+    typed_ok typed_other "User-Agent" ua -> typed_ok typed_other "Host" host ->
+    (N.of_nat (length body) <= 18446744073709551615)%N ->
+    exists st,
+      whole typed_other set_cookie KRequest (write_request mt host path (query_text qs) cs hs body) = (PDone, st)
+      /\ p_cur st = length (write_request mt host path (query_text qs) cs hs body)
+      /\ m_method (p_msg st) = mi
+      /\ m_resource (p_msg st) = slash path ++ path
+      /\ m_version (p_msg st) = 1%N
+      /\ m_query (p_msg st) = capply _ same_key [] (map (fun p : bytes * bytes => CIns p) qs)
+      /\ m_cookies (p_msg st) = capply _ same_pair [] (map (fun p : bytes * bytes => CIns p) cs)
+      /\ m_raw (p_msg st) = capply _ same_ci []
+           (map (fun h : bytes * bytes => CIns h)
+                ((list_of_string "Cookie", cookie_text cs) :: hs
+                 ++ [(list_of_string "User-Agent", ua); (list_of_string "Host", host)] ++ cl_raw body))
+      /\ m_body (p_msg st) = body.
+Proof. exact client_request_fields. Qed.
+Print Assumptions C02_client_request_fields.
+
+Theorem C02_distinct_keys_keep_all : forall (A : Type) (same : A -> A -> bool) (l acc : list A),
+  (forall a b, In a (acc ++ l) -> In b (acc ++ l) -> same a b = true -> a = b) -> NoDup (acc ++ l) ->
+  capply A same acc (map (fun a => CIns a) l) = acc ++ l.
+Proof. exact @capply_distinct. Qed.
+Print Assumptions C02_distinct_keys_keep_all.
+
 (* non-vacuity: a concrete request meets the hypotheses; evaluated with the executable instance *)
 Require Import ParserInst.
 Local Open Scope string_scope.
